@@ -96,6 +96,38 @@ STRENGTHENED = {
  "C19-1d": "missed at first (time stamps within int32 and canonical): out-of-range, very long and zero-padded decimal time stamps added to C19; a purely decimal time stamp outside 32 bits now counts as malformed",
  "C19-2d": "missed at first (five substituted characters, short lines): every byte value substituted at positions around every power-of-two length of lines carrying 1..300 message bytes",
  "C20-1d": "missed at first (a song was never changed after an export): chain export - edit (bar signature, resolution, added bar, moved event) - export, both orders of the two exports, against the bar model read off the public fields",
+ # round 5
+ "C01-1e": "missed at first (meta type bytes below 0x80 only): MetaUndefined with every type byte 0x80..0xFF added to C01's value sweep (outside the format, but the API builds them and the unchanged tree reads them back)",
+ "C02-1e": "missed at first (one tempo value): meta payloads that are odd for their type (tempo of zero, all-FF, zero time signature, key signature beyond seven sharps ...) for every meta type added to C02's meta sweep",
+ "C02-2e": "missed at first (tracks of at most a few hundred events): tracks of 5000..70000 channel messages with individual data bytes added to C02",
+ "C03-2e": "missed at first (deltas at VLQ boundaries only): deltas whose base-128 digits are all combinations of 5 (thorough 12) digit values added to the scalar sweeps of C01/C03",
+ "C04-1e": "not in C04's domain (an unterminated oversized sysex is not a message a sender puts on the wire); reported by C06",
+ "C04-2e": "missed at first (no Send from inside the call-back): 'thru' histories - the listener answers from inside its call-back (plain, with running status + real-time byte, in two pieces) x all gap assignments",
+ "C05-1e": "missed at first (allocation was bounded on malformed and short inputs only): amplification inputs - 2000/8000 events of one kind (tempo, signatures, text, sysex, program change) in two tracks with interleaved ticks, under the same allocation bound",
+ "C05-2e": "missed at first (65535 tracks at most, header always consistent): 65535/65536/65537/70000 track chunks under headers declaring 0, 1 and 65535 tracks",
+ "C06-1e": "NOT caught: visible only at the raw call-back of drivers.NewReader with an error handler configured, as a marker F7 00 00 that the unchanged tree also hands to midi.ListenTo (which drops it) for any F7 outside a sysex; nothing a listener receives through midi.ListenTo changes. C06 now also drives the reader directly with an error handler (the marker is not judged) and every other listener carries midi.HandleError",
+ "C06-2e": "missed at first (the virtual clock stood still in C06): streams whose chunks are 20-30 days apart (the 32-bit millisecond clock runs over) added to C06",
+ "C07-1e": "not in C07's domain (needs an unterminated sysex on the wire before the message); reported by C06 and C14",
+ "C07-2e": "missed at first (a stop function was called once): life-cycle search of C17 got the operations 'newest stop function again' and 'older stop function again'; reported by C17",
+ "C08-1e": "missed at first (meta payloads from a few patterns): all 65536 two-byte payloads for every meta type and every payload over 13 boundary bytes for tempo, time signature and SMPTE offset added to C08",
+ "C09-1e": "missed at first (chunk lengths were always exact): chunks declaring 1..600 bytes more than their events take, in the last, first and middle track, added to C09",
+ "C09-2e": "missed at first (inputs always started with MThd): an SMF inside a RIFF/RMID container, stray bytes before the header and a doubled magic added to C09",
+ "C10-1e": "missed at first (failing writes returned fewer bytes than given): destination modes 'full' and 'once-full' (all bytes taken, error reported all the same) at every offset / call",
+ "C10-2e": "missed at first: end-of-track events that carry data (last and earlier track) and a long final meta event added to C10's read-fault inputs",
+ "C11-1e": "missed at first (files were read without options): every tempo map is also read with the logging option on (C11 style 3; C02 reads every file once more with it)",
+ "C11-2e": "missed at first (header always declared the tracks): every tempo map is also read from a file whose header declares no track (C11 style 4)",
+ "C12-1e": "missed at first (tempo events in one track): layout 3 - tempo events in two tracks, the later track slowing the song down before the earlier one does",
+ "C12-2e": "missed at first (second playback used the same map): the first playback now maps track 0 only, the second the whole file",
+ "C13-2e": "missed at first (one take per track): two takes recorded into the same track, closed, written, read back",
+ "C14-1e": "missed at first (sysex contents were arbitrary small payloads): 16 sysex messages that mean something elsewhere (MTC full frame, MMC, device inquiry, GM/GS/XG, master volume, tuning, sample dump) x all option sets x four chunkings",
+ "C15-1e": "missed at first (results were only checked for not changing later): engine.Owned - the first result is overwritten in place and the constructor called again - for every key signature, named key and the fixed-layout constructors",
+ "C15-2e": "missed at first (texts up to 20000 bytes): lengths on both sides of 2^14, 2^21 and 2^24 for two text kinds and sequencer data",
+ "C16-1e": "missed at first (one escape in the alphabet): 'lookalike' files - escapes, sysex, texts and unknown meta events that carry channel-status-like bytes, at every position between channel messages",
+ "C16-2e": "needed the rewriter to redirect the real sync package to the shim in instrumented packages (a lock held by a suspended cooperative thread would block the process); then reported by the pair exploration",
+ "C17-1e": "needed depth and transition caps on the life-cycle search (a session counter made the driver's state unbounded and the search ran for more than half an hour); reported through the new 'older stop function again' operation",
+ "C17-2e": "missed at first (the exec shim had no Wait, the tree did not build): vexec.Cmd.Wait modelled (process dead and no write into the stdout pipe under way) and scenario S11 - the device keeps sending while the port is stopped and closed",
+ "C18-1e": "missed at first (payload slices had no spare capacity): engine.Spare - the payload sits in front of sentinel bytes inside its capacity; building must not write there",
+ "C19-2e": "a change to midicatdrv, outside what C19 observes (midicat.ReadAndConvert); reported by C17 scenario S12 (two lines written with one write)",
 }
 rows = []
 for d in sorted(glob.glob(V + "/seeded/*/meta.json")):
